@@ -24,6 +24,11 @@ END_TOD = 23 * 3600 + 59 * 60
 
 def gen_config(rng, profile="any", tier="quick"):
     """Draw one backtest configuration + market.  `profile` narrows the swarm to a property's domain."""
+    # C18 (REPEAT): the C14 swarm, plus markets whose first bars carry empty cells and start with the session, so
+    # that "no price yet" is actually asked for
+    lead = (profile == "C18")
+    if lead:
+        profile = "C14"
     n_assets = rng.randrange(1, 6)
     if rng.random() < (0.2 if tier == "thorough" else 0.05):
         n_assets = rng.randrange(6, 11)             # wide universes
@@ -83,6 +88,8 @@ def gen_config(rng, profile="any", tier="quick"):
         "burn_in": None,
         "data_via": rng.choice(["env", "handler_symbols", "handler_listdir"]),
         "adjust": True,
+        "dir_suffix": rng.choice(mk.DIR_SUFFIXES),
+        "both_sizer_kwargs": rng.random() < 0.25,
         "print_events": rng.random() < 0.08,       # the library's default is to print every event
     }
     if rng.random() < 0.12:
@@ -90,6 +97,10 @@ def gen_config(rng, profile="any", tier="quick"):
         # subclass overriding only the tax hook
         cfg["fee"] = rng.choice([{"kind": "subzero", "c": rng.choice([1e-3, 0.01])},
                                  {"kind": "subpct", "c": rng.choice([0.0, 1e-3]), "t": 0.5, "t2": rng.choice([0.0, 5e-3])}])
+    if profile == "C08" and rng.random() < 0.12:
+        # a STATEFUL fee model (documented extension point): volume tiers counted on fill calls (quantity != 0) -
+        # the first k fills at one rate, later ones at another; estimates (quantity 0) do not count
+        cfg["fee"] = {"kind": "tiered", "c": rng.choice([2e-3, 0.01]), "c2": rng.choice([0.0, 5e-4]), "k": rng.choice([1, 2, 3, 5, 8])}
     # ---- universe -------------------------------------------------------------------------
     dynamic = rng.random() < (0.7 if profile == "C19" else 0.35)
     if profile == "C08":
@@ -122,12 +133,14 @@ def gen_config(rng, profile="any", tier="quick"):
         if cfg["data_via"] == "env":
             cfg["data_via"] = "handler_listdir"
     cfg["universe"] = {"kind": "dynamic", "entries": entries} if dynamic else {"kind": "static", "assets": list(assets)}
-    if (not dynamic) and profile in ("C14", "C09", "any", "C07") and rng.random() < 0.25 and n_assets > 1:
-        # a user-defined Universe (subclass of the documented extension point) from which assets LEAVE
+    if (not dynamic) and profile in ("C14", "C09", "any", "C07") and rng.random() < 0.25:
+        # a user-defined Universe (subclass of the documented extension point) from which assets LEAVE - possibly
+        # all of them, early: later rebalances then find an empty universe (and, soon, a flat book)
         leave = {}
-        for a in rng.sample(assets, rng.randrange(1, n_assets)):
-            leave[a] = (rng.choice(sched) + rng.choice([0, 0, 60])) if (sched and rng.random() < 0.6) else \
-                (start + rng.randrange(0, max(1, end - start)))
+        everyone = rng.random() < 0.3
+        for a in rng.sample(assets, n_assets if everyone else rng.randrange(1, max(2, n_assets))):
+            leave[a] = (rng.choice(sched[:max(1, len(sched) // 2)] if everyone else sched) + rng.choice([0, 0, 60])) \
+                if (sched and rng.random() < 0.6) else (start + rng.randrange(0, max(1, (end - start) // (2 if everyone else 1))))
         cfg["universe"] = {"kind": "leaving", "assets": list(assets), "leave": leave}
     if dynamic and rng.random() < 0.3:
         cfg["universe"]["absent_as_nat"] = True
@@ -146,7 +159,7 @@ def gen_config(rng, profile="any", tier="quick"):
         faults.append("empty_cell")
     if rng.random() < 0.3:
         faults.append("shuffle_rows")
-    pre_days = rng.choice([0, 1, 3, 10])
+    pre_days = rng.choice([0, 1, 3, 10]) if not lead else rng.choice([0, 0, 0, 1, 3])
     md0 = d0 - pre_days
     while not cal.is_bday(md0):
         md0 -= 1
@@ -185,7 +198,9 @@ def gen_config(rng, profile="any", tier="quick"):
                 firstrow = list(sorted(rows)[0])
                 firstrow[0] = md0
                 rows.append(firstrow)
-    if profile == "C07" and rng.random() < 0.3:
+    lead_applied = False
+    if (profile == "C07" or lead) and rng.random() < 0.3:
+        lead_applied = True
         # leading empty cells: the first bar(s) of an asset carry no close (or no open) - a back-fill would reach
         # into the future here
         sym = rng.choice(syms)
@@ -197,7 +212,7 @@ def gen_config(rng, profile="any", tier="quick"):
             else:
                 r_[1] = None
         market["applied"].setdefault(sym, []).append("empty_cell:leading")
-    if profile != "C07":
+    if profile != "C07" and not lead_applied:
         # first observation of every asset must be a number (no leading empty cells)
         for sym in syms:
             rows = market["assets"][sym]["rows"]
@@ -595,6 +610,25 @@ def build_session(cfg, dirpath, shared_source=None, shared_inputs=None):
     if fee["kind"] in ("subzero", "subpct"):
         from .worlds.broker import make_sub_fee
         fee_model = make_sub_fee(fee)
+    elif fee["kind"] == "tiered":
+        from qstrader.broker.fee_model.fee_model import FeeModel
+
+        class TieredByFillCount(FeeModel):
+            def __init__(self):
+                self.n = 0
+
+            def _calc_commission(self, asset, quantity, consideration, broker=None):
+                return (fee["c"] if self.n < fee["k"] else fee["c2"]) * abs(consideration)
+
+            def _calc_tax(self, asset, quantity, consideration, broker=None):
+                return 0.0
+
+            def calc_total_cost(self, asset, quantity, consideration, broker=None):
+                cost = self._calc_commission(asset, quantity, consideration, broker)
+                if quantity != 0:
+                    self.n += 1
+                return cost
+        fee_model = TieredByFillCount()
     else:
         fee_model = ZeroFeeModel() if fee["kind"] == "zero" else PercentFeeModel(commission_pct=fee["c"], tax_pct=fee["t"])
     a = cfg["alpha"]
@@ -629,6 +663,11 @@ def build_session(cfg, dirpath, shared_source=None, shared_inputs=None):
     if cfg["long_only"]:
         kwargs["cash_buffer_percentage"] = cfg["cash_buffer"]
     else:
+        kwargs["gross_leverage"] = cfg["leverage"]
+    if cfg.get("both_sizer_kwargs"):
+        # one settings dictionary shared between a long-only and a long/short run: the keyword the mode does not
+        # use is there as well and must be ignored
+        kwargs["cash_buffer_percentage"] = cfg["cash_buffer"]
         kwargs["gross_leverage"] = cfg["leverage"]
     session = BacktestTradingSession(
         S, E, universe, alpha, signals=signals, initial_cash=cfg["initial_cash"], rebalance=cfg["rebalance"],
@@ -697,7 +736,7 @@ def run_session(cfg, market, monitors=True, dirpath=None, shared_source=None, ho
 def _run_session(cfg, market, monitors, dirpath, shared_source, hooks, shared_inputs=None):
     own = dirpath is None and shared_source is None
     if own:
-        dirpath = mk.scratch_dir()
+        dirpath = mk.scratch_dir(cfg.get("dir_suffix", ""))
         mk.write_market(market, dirpath)
     out = Outcome()
     out.rec = Rec()
